@@ -331,6 +331,14 @@ def execute(case: dict):
     script = case["script"]
 
     async def go():
+        try:
+            return await go_inner()
+        except HarnessError:
+            raise
+        except Exception as exc:  # noqa: BLE001 - anything the library raises outside the scripted outcomes
+            return [{"line": "setup", "impl": f"raised {type(exc).__name__}: {str(exc)[:80]}", "now": CLOCK.ticks(), "crash": True}]
+
+    async def go_inner():
         cache = setup_cache(case["config"])
         condition, time_condition = cond_py(case["cond"], case.get("condv", 0))
         ttl = ttl_py(case["ttl"], case.get("ttlv", 0), key_of)
@@ -461,6 +469,8 @@ def model_lines(case: dict, trace=None) -> list[str]:
 def oracle(case: dict, trace, log):
     """first violation of the property on the observed behaviour: (op index, message) or None"""
     cond, ttl = case["cond"], case["ttl"]
+    if trace and trace[0].get("crash"):
+        return 0, f"decorating / calling the function {trace[0]['impl']} (condition and ttl spelling are valid)"
     if case["kind"] == "simple":
         seen = 0
         for i, t in enumerate(trace):
